@@ -3,6 +3,8 @@ package props
 import (
 	"container/heap"
 	"fmt"
+	"strconv"
+	"strings"
 
 	gots "github.com/Comcast/gots/v2"
 	"github.com/Comcast/gots/v2/packet"
@@ -45,6 +47,9 @@ type C10Step struct {
 	Desc  int    `json:"desc,omitempty"`
 	Twice bool   `json:"same_object_twice,omitempty"`
 	Fault string `json:"fault,omitempty"` // dup | late_dup | reorder (how the channel produced this arrival)
+	// Near (kind close_near): the caller closes a near-copy of a delivered descriptor, one field
+	// changed: "pts:K" (signal time + 2^K), "event:K" (event id bit K flipped), "seg", "type"
+	Near string `json:"near,omitempty"`
 }
 
 // C10Block: Count deliveries of fresh descriptors of one type (event id and PTS increasing)
@@ -75,7 +80,7 @@ func (c10) New() interface{} { return &C10Script{} }
 func (c10) Info() core.Info {
 	return core.Info{
 		Runs: map[string]int{"quick": 200000, "thorough": 15000000},
-		Rule: "Each run is a discrete-event simulation on a 90 kHz clock: an encoder emits splice_info_sections (time_signal / splice_null, 1-3 segmentation descriptors, built with the real creation API) from either a generated 'broadcast day' (nested program/chapter/break/ad/placement-opportunity segments, breakaway/resumption, early termination, overlap, unscheduled events with stream-switch ids, network signals, optionally crossing the 2^33 PTS wrap) or an adversarial alphabet (14 types x 3 event ids x 4 times); a scripted channel drops, duplicates (immediately, with the same object, or beyond the 10-entry duplicate ring) and reorders deliveries; in half of the runs each section travels as scripted transport packets through the real accumulator and decoder; every accepted descriptor with a duration arms a timer that calls Close at pts+duration+jitter (early, late, twice, after it was closed); explicit and unknown Closes are interleaved. An invariant monitor using only public results is evaluated after every call. Plus a complete sweep of all call histories of length <=4 over a 9-letter alphabet. Non-trivial = at least one reach probe fired.",
+		Rule: "Each run is a discrete-event simulation on a 90 kHz clock: an encoder emits splice_info_sections (time_signal / splice_null, 1-3 segmentation descriptors, built with the real creation API) from either a generated 'broadcast day' (nested program/chapter/break/ad/placement-opportunity segments, breakaway/resumption, early termination, overlap, unscheduled events with stream-switch ids, network signals, optionally crossing the 2^33 PTS wrap) or an adversarial alphabet (14 types x 3 event ids x 4 times); a scripted channel drops, duplicates (immediately, with the same object, or beyond the 10-entry duplicate ring) and reorders deliveries; in half of the runs each section travels as scripted transport packets through the real accumulator and decoder; every accepted descriptor with a duration arms a timer that calls Close at pts+duration+jitter (early, late, twice, after it was closed); explicit and unknown Closes are interleaved. An invariant monitor using only public results is evaluated after every call. A 'deep' workload holds 5..257 descriptors open under a breakaway; explicit closes also use near-copies of delivered descriptors (signal time + 2^k, event-id bit, segment number, type); stream-switch pairs also carry first UPIDs other than 'BLACKOUT:<id>'; the allocation of every ProcessDescriptor call is measured (a call that allocates >64 MiB is on its way to taking the process down). Plus a complete sweep of all call histories of length <=4 over a 9-letter alphabet. Non-trivial = at least one reach probe fired.",
 		Real: []string{"scte35.NewState", "state.ProcessDescriptor/Close/Open", "segmentationDescriptor.CanClose/Equal (trusted as the closing rules)", "scte35 creation API + UpdateData", "scte35.NewSCTE35", "scte35.SCTE35AccumulatorDoneFunc", "packet.Accumulator"},
 		Stub: []string{"encoder workload", "packetiser", "signal channel (drop/dup/late dup/reorder)", "simulated clock + event heap + duration timers", "caller issuing explicit closes"},
 		Assumptions: []string{
@@ -86,7 +91,7 @@ func (c10) Info() core.Info {
 			"closed lists and Open() results returned earlier must not change under later calls (they are the caller's)",
 		},
 		SimTimeUnit:    "sim_ticks_90khz",
-		RequiredProbes: []string{"breakaway_then_closer", "breakaway_then_explicit_close_below", "resumption_with_breakaway", "resumption_without_breakaway", "second_breakaway", "dup_within_ring", "dup_beyond_ring", "timer_close_hit", "timer_close_miss", "multi_descriptor_signal", "pts_wrap", "no_pts", "vss_pair", "open_depth_ge4", "transport_path", "same_object_twice", "held_lists_checked", "caller_wipes_open_list", "unpolled_stretch", "unpolled_ge_256_calls"},
+		RequiredProbes: []string{"breakaway_then_closer", "breakaway_then_explicit_close_below", "resumption_with_breakaway", "resumption_without_breakaway", "second_breakaway", "dup_within_ring", "dup_beyond_ring", "timer_close_hit", "timer_close_miss", "multi_descriptor_signal", "pts_wrap", "no_pts", "vss_pair", "open_depth_ge4", "transport_path", "same_object_twice", "held_lists_checked", "caller_wipes_open_list", "unpolled_stretch", "unpolled_ge_256_calls", "open_depth_ge64"},
 	}
 }
 
@@ -123,7 +128,7 @@ func c10GenAdversarial(r *core.Rand) *C10Script {
 				}
 			}
 			if d.Type == 0x40 && r.Bool() {
-				d.VSS = r.PickS("sigA", "sigB")
+				d.VSS = r.PickS("sigA", "sigB", "sigA", "sigB", c10RawVSS[r.Intn(len(c10RawVSS))])
 			}
 			if r.Chance(1, 5) {
 				d.Dur = int64(r.Pick(1, 90000, 900000))
@@ -138,8 +143,78 @@ func c10GenAdversarial(r *core.Rand) *C10Script {
 		if r.Chance(1, 6) && len(s.Signals) > 0 {
 			at++
 			k := r.Intn(len(s.Signals))
-			s.Steps = append(s.Steps, C10Step{At: at, Kind: r.PickS("close", "close", "close", "close_unknown"), Sig: k, Desc: r.Intn(len(s.Signals[k].Descs))})
+			cs := C10Step{At: at, Kind: r.PickS("close", "close", "close", "close_unknown", "close_near"), Sig: k, Desc: r.Intn(len(s.Signals[k].Descs))}
+			if cs.Kind == "close_near" {
+				cs.Near = c10Near(r)
+			}
+			s.Steps = append(s.Steps, cs)
 		}
+	}
+	return s
+}
+
+// first UPIDs of a stream-switch pair that are not the usual "BLACKOUT:<id>"
+var c10RawVSS = []string{"raw:BLACKOUT", "raw:BLACKOUT:", "raw:id BLACKOUT", "raw:BLACKOUT:BLACKOUT", "raw:BLACKOUT:BLACKOUT:x", "raw:xBLACKOUT:y", "raw:blackout:z", "raw:", "raw:BLACKOU", "raw:B"}
+
+func c10Near(r *core.Rand) string {
+	switch r.Intn(6) {
+	case 0, 1:
+		return fmt.Sprintf("pts:%d", r.Pick(0, 1, 7, 8, 15, 16, 24, 31, 32, 32, 32))
+	case 2, 3:
+		return fmt.Sprintf("event:%d", r.Pick(0, 7, 8, 15, 16, 24, 31))
+	case 4:
+		return "seg"
+	}
+	return "type"
+}
+
+// c10GenDeep: many descriptors open at once (types that do not close one another, fresh event
+// ids), then a breakaway on top, a few more, and the resumption; closes and near-copies after.
+func c10GenDeep(r *core.Rand) *C10Script {
+	s := &C10Script{Workload: "deep"}
+	types := []int{0x30, 0x40, 0x20, 0x22, 0x34, 0x36, 0x44, 0x32}
+	if r.Bool() {
+		types = []int{0x30, 0x40}
+	}
+	depth := r.Pick(5, 31, 32, 33, 62, 63, 64, 65, 66, 127, 128, 129, 200, 255, 256, 257)
+	var at, t int64
+	add := func(d C10Desc) {
+		at += int64(r.Range(1, 3000))
+		t += 90000
+		s.Signals = append(s.Signals, C10Signal{T: t, Descs: []C10Desc{d}})
+		s.Steps = append(s.Steps, C10Step{At: at, Kind: "signal", Sig: len(s.Signals) - 1})
+	}
+	ev := uint32(1000)
+	add(C10Desc{Type: 0x10, Event: 1})
+	for i := 0; i < depth; i++ {
+		ev++
+		d := C10Desc{Type: types[i%len(types)], Event: ev}
+		if d.Type == 0x34 || d.Type == 0x36 {
+			d.SegNum, d.SegExp = 1, 2
+		}
+		add(d)
+	}
+	add(C10Desc{Type: 0x13, Event: 1})
+	for i := r.Pick(0, 0, 1, 3); i > 0; i-- {
+		ev++
+		add(C10Desc{Type: types[r.Intn(len(types))], Event: ev})
+	}
+	if r.Chance(1, 4) {
+		at++
+		s.Steps = append(s.Steps, C10Step{At: at, Kind: "close", Sig: r.Intn(len(s.Signals)), Desc: 0})
+	}
+	add(C10Desc{Type: 0x14, Event: 1})
+	for i := r.Pick(0, 1, 2, 4); i > 0; i-- {
+		at++
+		k := r.Intn(len(s.Signals))
+		st := C10Step{At: at, Kind: r.PickS("close", "close_near", "close_unknown"), Sig: k}
+		if st.Kind == "close_near" {
+			st.Near = c10Near(r)
+		}
+		s.Steps = append(s.Steps, st)
+	}
+	if r.Bool() {
+		add(C10Desc{Type: 0x11, Event: 1})
 	}
 	return s
 }
@@ -336,11 +411,24 @@ func c10GenDay(r *core.Rand, big bool) *C10Script {
 			arrivals = append(arrivals, C10Step{At: at + int64(r.Pick(5400000, 54000000, 324000000)), Kind: "signal", Sig: i, Fault: "late_dup"})
 		}
 		if r.Chance(1, 25) {
-			arrivals = append(arrivals, C10Step{At: at + int64(r.Pick(2, 90000, 5400000)), Kind: r.PickS("close", "close", "close_unknown"), Sig: r.Intn(i + 1), Desc: 0})
+			cs := C10Step{At: at + int64(r.Pick(2, 90000, 5400000)), Kind: r.PickS("close", "close", "close_unknown", "close_near"), Sig: r.Intn(i + 1), Desc: 0}
+			if cs.Kind == "close_near" {
+				cs.Near = c10Near(r)
+			}
+			arrivals = append(arrivals, cs)
 		}
 	}
 	s.Steps = arrivals
 	return s
+}
+
+func scanNear(s, prefix string, k *int) bool {
+	if !strings.HasPrefix(s, prefix) {
+		return false
+	}
+	n, err := strconv.Atoi(s[len(prefix):])
+	*k = n
+	return err == nil && n >= 0
 }
 
 func prog0(stack []c10Seg) int {
@@ -371,7 +459,9 @@ func (c10) Gen(r *core.Rand, tier string) interface{} {
 		return c10GenUnpolled(r)
 	}
 	var s *C10Script
-	if r.Chance(2, 5) {
+	if r.Chance(1, 25) {
+		s = c10GenDeep(r)
+	} else if r.Chance(2, 5) {
 		s = c10GenDay(r, tier == "thorough" && r.Chance(1, 10))
 	} else {
 		s = c10GenAdversarial(r)
@@ -470,7 +560,12 @@ func c10Build(sg C10Signal, base int64) (scte35.SCTE35, []scte35.SegmentationDes
 			x.SetUPIDType(scte35.SegUPIDMID)
 			u1 := scte35.CreateUPID()
 			u1.SetUPIDType(scte35.SegUPIDADI)
-			u1.SetUPID([]byte("BLACKOUT:" + d.VSS))
+			if strings.HasPrefix(d.VSS, "raw:") {
+				// the first UPID taken literally: the marker alone, twice, not at the front, absent
+				u1.SetUPID([]byte(d.VSS[4:]))
+			} else {
+				u1.SetUPID([]byte("BLACKOUT:" + d.VSS))
+			}
 			u2 := scte35.CreateUPID()
 			u2.SetUPIDType(scte35.SegUPADSINFO)
 			u2.SetUPID([]byte("comcast:linear:licenserotation"))
@@ -768,6 +863,12 @@ func (c10) Exec(script interface{}, c *core.Ctx) {
 		}
 		if len(o) >= 4 {
 			c.Probe("open_depth_ge4")
+			if len(o) >= 64 {
+				c.Probe("open_depth_ge64")
+			}
+			if len(o) >= 256 {
+				c.Probe("open_depth_ge256")
+			}
 		}
 		return true
 	}
@@ -860,7 +961,17 @@ func (c10) Exec(script interface{}, c *core.Ctx) {
 		hasPTS := d.SCTE35().HasPTS()
 		var closed []scte35.SegmentationDescriptor
 		var err error
+		a0 := core.HeapAllocs()
 		if !c.Call("State.ProcessDescriptor", func() { closed, err = st.ProcessDescriptor(d) }) {
+			return false
+		}
+		// "No call panics" includes the call that takes the process down by exhausting memory.
+		// A tracker holds a ten-entry duplicate ring and a stack of open descriptors; one call has
+		// no business allocating tens of megabytes, whatever the history (at most a few thousand
+		// calls here). Growth that doubles per call crosses this line long before it is fatal.
+		if a := core.HeapAllocs() - a0; a > 64<<20 {
+			c.Probe("call_allocated_>64MiB")
+			c.Fail("no_call_panics", "alloc:State.ProcessDescriptor", fmt.Sprintf("%d MiB allocated by one call (call number %d of this history)", a>>20, nproc), "well under 64 MiB")
 			return false
 		}
 		hold(closed, "closed")
@@ -1079,6 +1190,22 @@ func (c10) Exec(script interface{}, c *core.Ctx) {
 			return
 		}
 		sg := s.Signals[stp.Sig]
+		if stp.Kind == "close_near" && stp.Desc >= 0 && stp.Desc < len(sg.Descs) {
+			// a near-copy: everything as delivered but one field
+			sg.Descs = append([]C10Desc(nil), sg.Descs...)
+			var k int
+			switch {
+			case scanNear(stp.Near, "pts:", &k):
+				sg.T += int64(1) << uint(k&63%33)
+			case scanNear(stp.Near, "event:", &k):
+				sg.Descs[stp.Desc].Event ^= 1 << uint(k&31)
+			case stp.Near == "seg":
+				sg.Descs[stp.Desc].SegNum ^= 1
+			default:
+				sg.Descs[stp.Desc].Type ^= 1
+			}
+			c.Fault("caller_close_near_copy")
+		}
 		if unknown {
 			// a descriptor the tracker has never seen: shift the event id out of range
 			sg.Descs = append([]C10Desc(nil), sg.Descs...)
@@ -1148,7 +1275,7 @@ func (c10) Exec(script interface{}, c *core.Ctx) {
 				}
 				delivered++
 				deliver(stp)
-			case "close":
+			case "close", "close_near":
 				explicitClose(stp, false)
 			case "close_unknown":
 				explicitClose(stp, true)
